@@ -305,12 +305,13 @@ PROPS = {
                  "lengths {1, 100, 1000, 100001} x 3 start times, each with a junk-filled tick buffer and again after an abandoned iterator; random real-valued parameters in "
                  "playable ranges in histories of 2-20 iterators sharing one buffer (junk pre-fill, iterators dropped after k events). Oracle: collected stream == eager "
                  "reference list (kinds, span indices, times/progress to 1e-9 relative) + structural assertions (one head, per-span ticks then repeat, chronological, "
-                 "identical tick set per span, 10 ms rule, zero tick distance => no ticks, last tick + tail). Streams with more than 1e5 expected events are skipped and counted. "
+                 "identical tick set per span, 10 ms rule, zero tick distance => no ticks, last tick + tail). Streams with more than 1e5 expected events are skipped and counted. The encoder as a caller: sliders whose nodes get distinct volumes from "
+                 "sample points at the reference stream's head/repeat/tail times must keep them over encode -> decode (the collected sample points sit at those times). "
                  "One evaluation = one parameter set; distinct by hash of the parameters"),
         "assumptions": COMMON_ASSUMPTIONS + ["negative or NaN length is outside the domain (length comes from Curve::dist() >= 0)"],
         "quick": [leg("main", "rel", 16, 6000, timeout=600, max_secs=150), leg("dbg", "dbg", 8, 1000, timeout=600, max_secs=150)],
         "thorough": [leg("main", "rel", 16, 300000, timeout=3600, max_secs=900), leg("dbg", "dbg", 16, 20000, timeout=3600, max_secs=800)],
-        "min": {"events_compared": 2000000, "streams_with_ticks": 50000, "abandoned_iterators": 10000},
+        "min": {"events_compared": 2000000, "streams_with_ticks": 50000, "abandoned_iterators": 10000, "encoder_caller_cases": 1000},
     },
 }
 
